@@ -59,7 +59,7 @@ Lemma dispatch_loop_correct mounts default path : forall fuel script pi,
     /\ (lookup script' mounts = None -> mem SL script' = false).
 Proof.
   induction fuel as [|f IH]; intros script pi Hcat Hb Hlen Hno; [lia|].
-  cbn [dispatch_loop]. destruct (mem SL script) eqn:Hm.
+  cbn [dispatch_loop]. change 47 with SL. destruct (mem SL script) eqn:Hm.
   - destruct (lookup script mounts) as [a|] eqn:Hl.
     + exists a, script, pi.
       split; [reflexivity|]. split; [exact Hcat|]. split; [exact Hb|].
